@@ -56,7 +56,9 @@ fn main() {
             let var = arg(&args, "--variant").unwrap_or_else(|| die("--variant"));
             let par: usize = arg(&args, "--par").and_then(|s| s.parse().ok()).unwrap_or_else(|| die("--par"));
             let out = arg(&args, "--out").unwrap_or_else(|| die("--out"));
-            let c = if args.iter().any(|a| a == "--routes") {
+            let c = if args.iter().any(|a| a == "--sweep") {
+                sim::engine::target_sweep_case(&reg, fam, seed)
+            } else if args.iter().any(|a| a == "--routes") {
                 sim::engine::target_route_case(&reg, fam, var, false, seed)
             } else {
                 sim::engine::target_grid_case(&reg, fam, var, par, false, seed, args.iter().any(|a| a == "--compact"), arg(&args, "--dir").and_then(sim::registry::Dir::parse))
